@@ -180,7 +180,7 @@ static void checkC13(Ctx& c, long idx, Rng& r) {
 
 // ------------------------------------------------------------------------------------
 // C12: power vs potential energy
-struct PowerOut { double P = 0, dPE = 0, dPEh = 0, scale = 0, peMag = 0, reported = NaN, h = 1e-3, fmax = 0; bool ok = true, yank = false; std::string why; };
+struct PowerOut { double P = 0, dPE = 0, dPEh = 0, scale = 0, peMag = 0, reported = NaN, h = 1e-3, fmax = 0; bool ok = true, yank = false; double shapeTerm = NaN; std::string why; };
 
 // Power delivered and d(PE)/dt along q(t) = q + t*N*u for the speeds currently in s.
 static PowerOut powerAt(Ctx& c, FCase& k, State& s) {
@@ -210,6 +210,14 @@ static PowerOut powerAt(Ctx& c, FCase& k, State& s) {
     double h = e.fdStepFor(k, s); po.h = h;
     auto d5 = [&](double hh) { return (-pe(2 * hh) + 8 * pe(hh) - 8 * pe(-hh) + pe(-2 * hh)) / (12 * hh); };
     po.dPEh = d5(h); po.dPE = d5(h / 2);
+    // contribution x^(5/2) * dC/dt of a contact-location dependent energy coefficient (see Elem::shapeCoefficient)
+    { double C0, x0; State w0 = s;
+      if (e.shapeCoefficient(k, w0, C0, x0)) {
+          bool okc = true; double x;
+          auto Cat = [&](double t) { double C = NaN; w.updQ() = q0 + t * qdot; k.m.sys.realize(w, Stage::Position); if (!e.shapeCoefficient(k, w, C, x)) okc = false; return C; };
+          double hh = h / 2, dC = (-Cat(2 * hh) + 8 * Cat(hh) - 8 * Cat(-hh) + Cat(-2 * hh)) / (12 * hh);
+          if (okc && std::isfinite(dC)) po.shapeTerm = std::pow(x0, 2.5) * dC;
+      } }
     if (std::isfinite(po.dPE)) po.scale += std::fabs(po.dPE);   // |dPE/dt| is one of the terms of the balance
     (void)c;
     return po;
@@ -248,8 +256,15 @@ static void checkC12(Ctx& c, long idx, Rng& r) {
                 c.obs("yank-out:" + en);
                 c.check("energy-" + en + ":sign", D, tol, W("P + dPE/dt > 0 while contact elements are being yanked apart"));
                 c.check("energy-" + en + ":sign", D + po.reported, tol, W("reported power dissipation exceeds the actual one (yank-out)"));
-            } else
-                c.check("energy-" + en + ":balance", std::fabs(D + po.reported), tol, W(dirIx < 0 ? "P + dPE/dt != -(reported power dissipation)" : "generalized force != -dPE/dq*N - reported dissipation"));
+            } else {
+                double resid = std::fabs(D + po.reported);
+                // Attribute, then key: a mismatch that equals x^(5/2)*dC/dt (energy coefficient changing as the contact
+                // point travels over a non-spherical surface) keeps the plain key; anything else is keyed apart.
+                bool explained = std::isfinite(po.shapeTerm) && std::fabs(D + po.reported - po.shapeTerm) <= 10 * tol + 1e-4 * std::fabs(po.shapeTerm);
+                if (std::isfinite(po.shapeTerm)) c.obs(std::string("shape-term:") + (resid <= tol ? "balance-holds" : explained ? "explains-mismatch" : "does-not-explain-mismatch") + ":" + en);
+                c.check("energy-" + en + (resid > tol && !explained ? ":balance-unexplained" : ":balance"), resid, tol,
+                        [&]() { return W(dirIx < 0 ? "P + dPE/dt != -(reported power dissipation)" : "generalized force != -dPE/dq*N - reported dissipation")().set("shapeTerm", po.shapeTerm); });
+            }
             c.check("energy-" + en + ":sign", -po.reported, tol, W("reported power dissipation negative"));
             if (!e.damped) c.check("energy-" + en + ":balance", std::fabs(po.reported), tol, W("element without damping reports a power dissipation"));
         } else if (!e.damped) c.check("energy-" + en + ":balance", std::fabs(D), tol, W(dirIx < 0 ? "P + dPE/dt != 0 for an element without damping" : "generalized force != -dPE/dq*N for an element without damping"));
